@@ -274,6 +274,12 @@ def _fin(M):
     return finalize_symmetric_matrix(M)
 
 
+_GEO = ("mu", "geometry", "radius", "flags")
+NO_REFRESH = {"kM": ("offset",) + _GEO, "kA": ("offset", "stack", "plyts", "material", "ortho") + _GEO,
+              "kAmach": ("offset", "stack", "plyts", "material", "ortho") + _GEO,
+              "cA": ("offset", "stack", "plyts", "material", "ortho") + _GEO,
+              "uvw": ("offset", "stack", "plyts", "material", "ortho") + _GEO,
+              "strain": ("offset", "stack", "plyts", "material", "ortho") + _GEO, "stress": _GEO}
 STUDY_QS = ("k0", "kG0", "kM", "uvw", "strain", "stress", "fext", "static", "fint", "kT", "kGc")
 
 
@@ -297,12 +303,18 @@ def observe(pd, req, fresh_model=True):
             pass                      # the first leg only creates history
         redefine(p, pd)
         p.forces, p.forces_inc = [], []
-        if req["q"] == "kM" and kind in ("offset", "mu", "geometry", "radius", "flags"):
-            # these aspects do not enter the laminate: the mass matrix is asked for directly after the change,
-            # without the stiffness call that would refresh the laminate object
+        if kind in NO_REFRESH.get(req["q"], ()):
+            # the changed aspect does not enter what this quantity reads from the laminate object: it is asked for
+            # directly after the change, without the stiffness call that would refresh every derived attribute
             req = dict(req, nok0=True)
     else:
         p = build_panel(pd, explicit_model=fresh_model, ctor=bool(req.get("ctor")))
+    if req.get("nok0"):
+        try:
+            return execute(p, pd, req)
+        except Exception:
+            # a direct query that is refused (attributes not derived yet) is C20's subject: ask in the documented order
+            return execute(p, pd, {k: v for k, v in req.items() if k != "nok0"})
     return execute(p, pd, req)
 
 
@@ -387,7 +399,8 @@ def observe_field(p, pd, req):
     """fields at the requested points; also re-evaluated with other thread counts, another point order
     and as a sub-list: all must be bit-identical (each point is computed independently)"""
     q = req["q"]
-    p.calc_k0(silent=True)            # documented order (derives model, laminate, F, r, alpharad)
+    if not req.get("nok0"):
+        p.calc_k0(silent=True)            # documented order (derives model, laminate, F, r, alpharad)
     c = np.array([float(fr(v)) for v in req["c"]])
     c0 = c.copy()
     xs = np.array([float(fr(pt[0])) for pt in req["pts"]])
